@@ -23,8 +23,11 @@ pub struct Expect {
     pub final_top: Option<String>,
     /// the program must stop with a runtime error whose first line starts with this
     pub error_prefix: Option<String>,
-    /// ... reported at this line of main.abra (innermost frame)
+    /// ... reported at this line (innermost frame) ...
     pub error_line: Option<u32>,
+    /// ... of this file (main.abra if absent)
+    #[serde(default)]
+    pub error_file: Option<String>,
     /// expected rendered host calls of main (arguments as handed to the host), in order
     pub main_host_calls: Option<Vec<String>>,
     /// at the end every written message has been read
